@@ -2,7 +2,7 @@
 use serde_json::{Value, json};
 use std::collections::BTreeMap;
 
-/// Keys are 0 => "a", 1 => "b"; values are 1 and 2.
+/// Keys are 0 => "a", 1 => "b"; values are 1 (the JSON number 1) and 2 (JSON `null`, see real::enc).
 pub const KEYS: [&str; 2] = ["a", "b"];
 pub const VALUES: [u8; 2] = [1, 2];
 
